@@ -14,13 +14,17 @@ static void build(void) {
 static int nprogs(int tier) { build(); return NP[tier]; }
 static void config(int tier, int prog, int * W, int * K) { build(); *W = P[tier][prog].W; *K = P[tier][prog].K; }
 static void describe(int tier, int prog, char * b, size_t n) { build(); prog_t * p = &P[tier][prog]; snprintf(b, n, "%d threads set/get the same key with %d yields in between%s", p->n, p->y, p->conc_create ? ", each also creating/deleting keys concurrently" : ""); }
-static prog_t * cur; static myth_key_t key, key2; static volatile int own_keys[4];
+static prog_t * cur; static myth_key_t key, key2, key3; static volatile int own_keys[4], k3_wrong, k3_calls;
+/* key3 has a destructor; what the ending thread stored under the other (destructor-less, lower-numbered) keys is still readable in it */
+static void k3_dtor(void * v) { long i = (long)v - 0x400; k3_calls++; if (i < 0 || i > 3) { k3_wrong++; return; }
+  if (myth_getspecific(key2) != (void *)(0x200 + i)) k3_wrong++; if (myth_getspecific(key) != (i ? (void *)(0x100 + i) : NULL)) k3_wrong++; }
 static void * body(void * a) {
   long i = (long)a;
   MV_CHECK(myth_getspecific(key) == NULL, "a thread that never stored a value reads %p", myth_getspecific(key));
   int w0 = mv_worker();
   if (i != 0) myth_setspecific(key, (void *)(0x100 + i));   /* thread 0 never stores under `key` */
   myth_setspecific(key2, (void *)(0x200 + i));
+  myth_setspecific(key3, (void *)(0x400 + i));
   if (cur->conc_create) {
     myth_key_t k; int r = myth_key_create(&k, 0); MV_CHECK(r == 0, "key_create failed");
     MV_CHECK(k != key && k != key2, "key_create handed out live key %d again", (int)k);
@@ -42,11 +46,13 @@ static void run(int tier, int prog) {
   build(); cur = &P[tier][prog];
   mv_start(cur->W);
   MV_CHECK(myth_key_create(&key, 0) == 0 && myth_key_create(&key2, 0) == 0 && key != key2, "key_create");
+  MV_CHECK(myth_key_create(&key3, k3_dtor) == 0 && key3 != key && key3 != key2, "key_create");
   myth_setspecific(key, (void *)0x999);
   myth_thread_t th[4];
   for (long i = 0; i < cur->n; i++) th[i] = myth_create(body, (void *)i);
   for (int i = 0; i < cur->n; i++) myth_join(th[i], 0);
   MV_CHECK(myth_getspecific(key) == (void *)0x999, "main's value was changed by other threads' stores");
+  MV_CHECK(k3_calls == cur->n && k3_wrong == 0, "the destructor of the third key ran %d time(s) for %d threads; in %d of its look-ups the ending thread's values under the other keys were gone or changed", k3_calls, cur->n, k3_wrong);
   MV_CHECK(myth_setspecific(1024, (void *)1) == EINVAL && myth_getspecific(-1) == NULL, "out-of-range key not rejected");
   mv_obs("ok on w%d", mv_worker());
   mv_finish();
